@@ -1,0 +1,56 @@
+"""Verification hooks (instrumentation only).
+
+Everything here is inert unless the environment variable MEANINGFUL_DATA_VTLENGINE_VERIF is "1".
+With the guard on, an external harness may install
+  * a sink receiving (kind, name, k, index) for every execution event,
+  * a fault position: the event with that index raises InjectedFault (simulating a failure at that point),
+  * a yield callback invoked at every access to process-global state.
+"""
+
+import os
+import threading
+from typing import Any, Callable, Optional
+
+GUARD = "MEANINGFUL_DATA_VTLENGINE_VERIF"
+
+
+class InjectedFault(RuntimeError):
+    """Raised at an event position chosen by the harness."""
+
+
+_state = threading.local()
+sink: Optional[Callable[[str, Any, Any, int], None]] = None
+yield_cb: Optional[Callable[[str], None]] = None
+
+
+def enabled() -> bool:
+    return os.environ.get(GUARD) == "1"
+
+
+def reset(fault_at: Optional[int] = None, fault_kind: Optional[str] = None) -> None:
+    """Restart event numbering for the calling thread and (optionally) arm a fault."""
+    _state.counter = 0
+    _state.fault_at = fault_at
+    _state.fault_kind = fault_kind
+
+
+def event(kind: str, name: Any = None, k: Any = None) -> None:
+    if os.environ.get(GUARD) != "1":
+        return
+    idx = getattr(_state, "counter", 0)
+    _state.counter = idx + 1
+    if sink is not None:
+        sink(kind, name, k, idx)
+    fault_at = getattr(_state, "fault_at", None)
+    if fault_at is not None and idx == fault_at:
+        fk = getattr(_state, "fault_kind", None)
+        if fk is None or fk == kind:
+            _state.fault_at = None
+            raise InjectedFault(f"injected fault at event {idx} ({kind}, {name}, {k})")
+
+
+def yield_point(tag: str) -> None:
+    if os.environ.get(GUARD) != "1":
+        return
+    if yield_cb is not None:
+        yield_cb(tag)
